@@ -141,6 +141,14 @@ def run(tier):
         E = [rnd.choice(bymn[rnd.choice(mns)]) for _ in range(rnd.randrange(2, 12))]
         how = k % 5
         F = [l if rnd.random() < (1.0 if how == 4 else 0.4) else rnd.choice(bymn[l.split()[0]]) for l in E]
+        if k % 7 == 3:
+            # near-duplicates: the final program's lines differ from the earlier program's in the LAST digit only (whatever remembers a
+            # line by less than its whole text then takes one for the other); both sides of the comparison assemble the same text
+            import re as _re
+            F = []
+            for l in E:
+                m_ = list(_re.finditer(r"[0-9](?=[^0-9]*$)", l))
+                F.append(l[:m_[-1].start()] + ("1" if l[m_[-1].start()] != "1" else "2") + l[m_[-1].end():] if m_ and _re.search(r"\d", l) else l)
         rnd.shuffle(F) if k % 3 == 0 else None
         if how == 1:
             Ecmd = "asm 0 %s" % common.hx("\n".join(E[:len(E) // 2] + [rnd.choice(["bogus rax", "mov rax, [rbx", "add rax, xmm1, 5"])] + E[len(E) // 2:]))
